@@ -792,10 +792,16 @@ func (c *Client) Do(ctx context.Context, q Query) (err error) {
 		return nil
 	})
 	if err := g.Wait(); err != nil {
-		if gotException.Load() && !c.IsClosed() {
-			// Query was failed by server and connection is still usable:
-			// drop everything that was encoded for this query, but not sent.
-			c.writer.Reset()
+		if !c.IsClosed() {
+			if gotException.Load() {
+				// Query was failed by server and connection is still usable:
+				// drop everything that was encoded for this query, but not sent.
+				c.writer.Reset()
+			} else {
+				// Any other failure leaves connection in unknown state,
+				// even if cancel-watch has not observed it.
+				_ = c.Close()
+			}
 		}
 		return err
 	}
